@@ -358,7 +358,7 @@ func run(c *core.Ctx) int {
 		need = append(need, fmt.Sprintf("size_pages_%d", s))
 	}
 	need = append(need, "run_interpreter/fixed-allocator", "run_compiler/fixed-allocator", "run_interpreter/moving-allocator", "run_compiler/moving-allocator",
-		"mem_local", "mem_imported", "mem_shared", "since_call-or-grow", "since_join", "since_none", "basekind_param", "basekind_const", "basekind_const-in-local", "basekind_wrapped-i64", "wrapped_base_dirty_upper_half",
+		"mem_local", "mem_imported", "mem_shared", "mem_private_not_exported", "callee_hostgrow", "callee_hostreenter", "callee_hostwrite", "since_call-or-grow", "since_join", "since_none", "basekind_param", "basekind_const", "basekind_const-in-local", "basekind_wrapped-i64", "wrapped_base_dirty_upper_half",
 		"real_moves", "traps_expected", "traps_observed")
 	for _, k := range need {
 		if c.Counter(k) == 0 {
@@ -594,7 +594,12 @@ func handleCrash(c *core.Ctx, ci caseIn, cr *core.Crash) int {
 		// on use counts that the localisation by truncation perturbs; the
 		// instruction class is in the detail only, too: one address-computation
 		// defect shows through plain, atomic and bulk accesses alike)
-		sig += formula + ":base=" + strings.SplitN(hit.VarKind, ":", 2)[0]
+		if formula == "correct-offset-from-stale-base" {
+			// the base kind is irrelevant: the engine kept the memory base across a move
+			sig += "stale-memory-base-after-move:memory=" + memVis(t)
+		} else {
+			sig += formula + ":base=" + strings.SplitN(hit.VarKind, ":", 2)[0]
+		}
 	default:
 		sig += "unmatched:"
 		switch {
@@ -618,6 +623,20 @@ func handleCrash(c *core.Ctx, ci caseIn, cr *core.Crash) int {
 	c.Violate(sig, detail, map[string]any{"case": ci, "run": rc.String(), "tuple": tuple, "params": pstr(tuples, tuple), "fault_address": fmt.Sprintf("%#x", fault),
 		"reservations": bases, "where": where, "matched_access": hit, "model_trace": exp.Trace, "crash": cr, "module": strings.Split(wdis.Module(bin), "\n")})
 	return runIdx
+}
+
+func memVis(t *template) string {
+	v := "local-exported"
+	switch {
+	case t.Imported:
+		v = "imported"
+	case t.Private:
+		v = "local-not-exported"
+	}
+	if t.Shared {
+		v += "-shared"
+	}
+	return v
 }
 
 func pstr(ts []params, i int) string {
@@ -890,7 +909,7 @@ func runOne(t *template, tuples []params, bin, xbin []byte, ri int, rc runCfg, o
 			w = map[string]any{}
 		}
 		w["run"] = rc.String()
-		w["memory"] = fmt.Sprintf("init=%d pages max=%d has_max=%v shared=%v imported=%v", t.InitPages, t.MaxPages, t.HasMax, t.Shared, t.Imported)
+		w["memory"] = fmt.Sprintf("init=%d pages max=%d has_max=%v shared=%v imported=%v exported=%v", t.InitPages, t.MaxPages, t.HasMax, t.Shared, t.Imported, !t.Imported && !t.Private)
 		w["vars"] = t.Vars
 		w["module"] = strings.Split(wdis.Module(bin), "\n")
 		out.Findings = append(out.Findings, finding{Sig: rc.engine() + ":" + sig, Detail: rc.String() + ": " + detail, Witness: w})
@@ -905,6 +924,17 @@ func runOne(t *template, tuples []params, bin, xbin []byte, ri int, rc runCfg, o
 		}
 		stack[0] = uint64(old)
 	}), []api.ValueType{i32}, []api.ValueType{i32}).Export("grow")
+	hb.NewFunctionBuilder().WithGoModuleFunction(api.GoModuleFunc(func(ctx context.Context, mod api.Module, stack []uint64) {
+		res, err := mod.ExportedFunction("growx").Call(ctx, stack[0])
+		if err != nil || len(res) != 1 {
+			stack[0] = 0xffffffff
+			return
+		}
+		stack[0] = res[0]
+	}), []api.ValueType{i32}, []api.ValueType{i32}).Export("reenter")
+	hb.NewFunctionBuilder().WithGoModuleFunction(api.GoModuleFunc(func(_ context.Context, mod api.Module, stack []uint64) {
+		mod.Memory().WriteUint32Le(uint32(stack[0]), uint32(stack[1]))
+	}), []api.ValueType{i32, i32}, nil).Export("write")
 	if _, err := hb.Instantiate(ctx); err != nil {
 		out.Inconcl = append(out.Inconcl, "host-module-failed")
 		return
@@ -934,6 +964,9 @@ func runOne(t *template, tuples []params, bin, xbin []byte, ri int, rc runCfg, o
 		cnt["mem_imported"]++
 	} else {
 		cnt["mem_local"]++
+	}
+	if t.Private {
+		cnt["mem_private_not_exported"]++
 	}
 	findings := 0
 	// lenBug: compiler + local non-shared memory of exactly 65536 pages: if an
@@ -997,6 +1030,9 @@ func runOne(t *template, tuples []params, bin, xbin []byte, ri int, rc runCfg, o
 				cnt["size_pages_other"]++
 			}
 		}
+		for k, n := range exp.Callees {
+			cnt["callee_"+k] += int64(n)
+		}
 		if exp.Trap != "" {
 			if os.Getenv("C02_DEBUG") != "" {
 				d := exp.Trace[len(exp.Trace)-1]
@@ -1033,6 +1069,9 @@ func runOne(t *template, tuples []params, bin, xbin []byte, ri int, rc runCfg, o
 			d := a.Class + ":" + sigBucket(a.Bucket) + ":" + pg
 			if a.Upper != 0 {
 				d += ":base=wrapped-i64-with-nonzero-upper-half"
+			}
+			if t.Private {
+				d += ":memory-not-exported"
 			}
 			return d
 		}
